@@ -3,12 +3,15 @@
    are equal stay equal through every later merge (the merge applies one insertion vector to the whole
    group).  Hence, once the copies of a sequence form one group with equal rows - which is the case when
    they are merged with each other first (a clade of the guide tree) by all-match paths (C08) - they come
-   out identical.  That UPGMA makes the copies a clade under the containment premise, and that the kernels
-   return the diagonal on equal operands, are statements about binary32 arithmetic; they are not yet
-   theorems: the clade premise is MONITORED on every guide tree of every run, the tree and every merge are
-   compared bit-exactly between the executable binary32 model and the implementation (DESIGN C12). *)
+   out identical.  Proved in EXACT arithmetic (kernel text over integers with minus infinity, binary32
+   parameters at their real values): inside ANY run of the model, the merges that stay within a clade of
+   copies are all diagonal and all-match, whatever the other merges do (C12_clade_of_copies_exact).
+   NOT theorems: that UPGMA makes the copies a clade under the containment premise, and that the binary32
+   run decides like the exact one (rounding): the clade premise is MONITORED on every guide tree of every
+   run, the tree and every merge are compared bit-exactly between the executable binary32 model and the
+   implementation (DESIGN C12). *)
 From Coq Require Import ZArith List Bool Lia.
-From KV Require Import Base Weave WeaveProofs WeaveCheck AssemblyProofs DupProofs.
+From KV Require Import Base Weave WeaveProofs WeaveCheck AssemblyProofs DupProofs Kernels Pipeline ExactDiag ExactDiagInst ExactDiagProf ExactDiagRun.
 Import ListNotations.
 Local Open Scope nat_scope.
 
@@ -32,3 +35,35 @@ Example C12_nonvacuous :
   row_of dup_seqs (run_from (st0 dup_seqs) dup_tasks) 1 = row_of dup_seqs (run_from (st0 dup_seqs) dup_tasks) 2 /\
   row_of dup_seqs (run_from (st0 dup_seqs) dup_tasks) 1 = [65;67;45;71;84;65;67]%Z.
 Proof. vm_compute. repeat split; auto. Qed.
+
+(* The clade step in exact arithmetic.  [cp] marks the indices of the groups of the clade: at the start each marked
+   group present is a group of copies of x (a single copy, or a profile of k copies); every task either stays inside
+   the marked indices or writes to an unmarked one.  Then - for every scheme that passes the finite check of C08,
+   every other content of the run, every task list - each marked merge has the diagonal raw path and all-match
+   operations, so the copies enter the rest of the run as one group with equal rows. *)
+Theorem C12_clade_of_copies_exact :
+  forall (unit : Z), (0 <= unit)%Z -> forall (S : list (list Z)) (gpo gpe tgpe gam : Z) (dim : nat) (mx : Z),
+  scheme_ok unit S gpo gpe tgpe gam dim mx = true -> (dim <= 23)%nat ->
+  forall x : list Z, Forall (fun c => inr dim c = true) x -> (1 <= length x)%nat ->
+  forall (cp : nat -> bool) tasks groups out,
+  (forall i g, cp i = true -> nth i groups None = Some g -> exists k, (1 <= k)%Z /\ grpK unit S gpo gpe tgpe x k g) ->
+  clade_tasks cp tasks ->
+  run_tasks (AX unit) (PX unit S gpo gpe tgpe) groups tasks = Some out ->
+  Forall (fun e => cp (snd (fst (fst (fst e)))) = true -> diag_entry unit x e) out.
+Proof. intros unit Hu S gpo gpe tgpe gam dim mx Hok Hd x Hx HL cp. exact (run_tasks_clade unit Hu S gpo gpe tgpe gam dim mx Hok Hd x Hx HL cp). Qed.
+Print Assumptions C12_clade_of_copies_exact.
+
+(* Non-vacuity, evaluated in exact arithmetic under the built-in nucleotide scheme: sequences 1, 2 and 4 are copies and
+   form a clade (tasks (1,2,5) and (5,4,6)); sequences 0 and 3 differ and are merged outside it; the marked merges are
+   diagonal, the run returns, and the other merges are not all-match (terminal gaps are free under this scheme) *)
+Example C12_clade_instance :
+  match scheme_of Params.PS_DNA with
+  | Some (m, gpo, gpe, tgpe) =>
+    let x := [0; 1; 4; 2; 3; 3; 4; 1]%Z in
+    let y := [0; 1; 2; 3; 3; 1; 0]%Z in let z := [2; 2; 0; 1; 3; 3; 1; 1; 0]%Z in
+    option_map (map (fun e => (snd (fst (fst (fst e))), snd (fst e))))
+      (progressive (AX unitX) (PX unitX m gpo gpe tgpe) [y; x; x; z; x] [(1, 2, 5); (0, 3, 7); (5, 4, 6); (6, 7, 8)]%nat)
+    = Some [(5%nat, repeat 0%Z 8); (7%nat, [33; 33; 0; 0; 0; 0; 0; 0; 0]%Z); (6%nat, repeat 0%Z 8); (8%nat, (repeat 33 8 ++ [0] ++ repeat 34 7)%Z)]
+  | None => False
+  end.
+Proof. vm_compute. reflexivity. Qed.
